@@ -638,7 +638,13 @@ func (fc *FnCtx) bvToInt(t string, ty types.Type) string {
 	if !fc.declared[fn] {
 		fc.declared[fn] = true
 		fc.addPre(fmt.Sprintf("(declare-fun %s ((_ BitVec %d)) Int)", fn, w))
+		h := new(big.Int).Rsh(m, 1)
+		maxS := new(big.Int).Sub(h, big.NewInt(1))
+		// definition (expensive: bit expansion) plus cheap consequences that make most proofs avoid it
 		fc.addAxiom(fn, fmt.Sprintf("(assert (forall ((x (_ BitVec %d))) (! (= (%s x) (ite (bvslt x (_ bv0 %d)) (- (bv2nat x) %s) (bv2nat x))) :pattern ((%s x)))))", w, fn, w, m.String(), fn))
+		fc.addAxiom(fn, fmt.Sprintf("(assert (forall ((x (_ BitVec %d))) (! (and (<= (- %s) (%s x)) (<= (%s x) %s)) :pattern ((%s x)))))", w, h.String(), fn, fn, maxS.String(), fn))
+		fc.addAxiom(fn, fmt.Sprintf("(assert (forall ((x (_ BitVec %d))) (! (=> (bvslt x %s) (= (%s (bvadd x (_ bv1 %d))) (+ (%s x) 1))) :pattern ((%s (bvadd x (_ bv1 %d)))))))", w, bvLit(maxS, w), fn, w, fn, fn, w))
+		fc.addAxiom(fn, fmt.Sprintf("(assert (forall ((x (_ BitVec %d))) (! (=> (bvsgt x %s) (= (%s (bvsub x (_ bv1 %d))) (- (%s x) 1))) :pattern ((%s (bvsub x (_ bv1 %d)))))))", w, bvLit(new(big.Int).Neg(h), w), fn, w, fn, fn, w))
 	}
 	return app(fn, t)
 }
